@@ -177,7 +177,9 @@ pub fn panic_signature(entry: &str, msg: &str, loc: &str) -> String {
         .take(6)
         .collect::<Vec<_>>()
         .join(" ");
-    format!("panic:{entry}:{file}:{short}")
+    // call site (file + message) first, entry point last: a known finding is keyed on the call
+    // site and matches whatever entry point reaches it
+    format!("panic:{file}:{short}@{entry}")
 }
 
 pub fn panic_failure(entry: &str, p: (String, String), input: J) -> Failure {
